@@ -185,34 +185,53 @@ def _run(check: PropertyCheck, driver_module: str, tier: str, seed: int, t0: flo
         scenarios += [(s, "random") for s in check.extra_scenarios(tier, seed)]
     if limit:
         scenarios = scenarios[:limit]
-    # ---- stage 2: replay into the implementation
-    cases: list[Case] = []
-    work = [(driver_module, s) for s, _ in scenarios]
-    if check.pool > 1 and len(work) > 8:
-        with ProcessPoolExecutor(max_workers=check.pool) as ex:
-            results = list(ex.map(_drive_one, work, chunksize=max(1, min(64, len(work) // (check.pool * 4) or 1))))
-    else:
-        results = [_drive_one(w) for w in work]
-    for (s, origin), (trace, features, err) in zip(scenarios, results):
-        if err:
-            raise MachineryError(f"driver failure on scenario {json.dumps(s)[:500]}:\n{err}")
-        cases.append(Case(scenario=s, trace=trace, features=features, origin=origin))
-    t_drive = time.time() - t0 - t_mc
-    # ---- stage 3: trace validation by TLC
-    verdicts, tres = tlc.validate_traces(check.trace_module, [c.trace for c in cases], chunk=check.trace_chunk)
-    if tres:
-        states += tres.distinct
-        transitions += tres.generated
-    t_val = time.time() - t0 - t_mc - t_drive
+    # ---- stages 2 and 3, in batches (bounded memory): replay into the implementation, validate by TLC
+    BATCH = int(os.environ.get("RV_BATCH", "40000"))
+    t_drive = t_val = 0.0
     violations: list[tuple[Case, dict]] = []
     known: dict[str, int] = {}
-    for c, v in zip(cases, verdicts):
-        if v["verdict"] == "REJECT":
-            f = match_finding(findings, v["clause"], c.features)
-            if f is not None:
-                known[f["id"]] = known.get(f["id"], 0) + 1
+    nontrivial_keys: set = set()
+    samples: list = []
+    n_cases = events = 0
+    pool = ProcessPoolExecutor(max_workers=check.pool) if check.pool > 1 and len(scenarios) > 8 else None
+    try:
+        for start in range(0, len(scenarios), BATCH):
+            part = scenarios[start:start + BATCH]
+            t1 = time.time()
+            work = [(driver_module, s) for s, _ in part]
+            if pool is not None:
+                results = list(pool.map(_drive_one, work, chunksize=max(1, min(64, len(work) // (check.pool * 4) or 1))))
             else:
-                violations.append((c, v))
+                results = [_drive_one(w) for w in work]
+            cases: list[Case] = []
+            for (s, origin), (trace, features, err) in zip(part, results):
+                if err:
+                    raise MachineryError(f"driver failure on scenario {json.dumps(s)[:500]}:\n{err}")
+                cases.append(Case(scenario=s, trace=trace, features=features, origin=origin))
+            t2 = time.time()
+            t_drive += t2 - t1
+            verdicts, tres = tlc.validate_traces(check.trace_module, [c.trace for c in cases], chunk=check.trace_chunk)
+            t_val += time.time() - t2
+            if tres:
+                states += tres.distinct
+                transitions += tres.generated
+            for c, v in zip(cases, verdicts):
+                if v["verdict"] == "REJECT":
+                    f = match_finding(findings, v["clause"], c.features)
+                    if f is not None:
+                        known[f["id"]] = known.get(f["id"], 0) + 1
+                    elif len(violations) < 200000:
+                        violations.append((c, v))
+                if c.features.get("nontrivial"):
+                    nontrivial_keys.add(_hash(c.features.get("key", c.scenario)))
+            n_cases += len(cases)
+            events += sum(len(c.trace) for c in cases)
+            if len(samples) < 3 and cases:
+                c = cases[len(cases) // 2]
+                samples.append({"origin": c.origin, "scenario": c.scenario, "trace": c.trace[:4]})
+    finally:
+        if pool is not None:
+            pool.shutdown()
     # ---- report
     rc = 0
     for f in findings:
@@ -234,21 +253,16 @@ def _run(check: PropertyCheck, driver_module: str, tier: str, seed: int, t0: flo
     if violations:
         print(f"violations by clause: {seen_clause}")
     # ---- evidence
-    nontrivial_keys = {c.features.get("key", _hash(c.scenario)) for c in cases if c.features.get("nontrivial")}
-    samples = []
-    for c in cases[:: max(1, len(cases) // 3)][:3]:
-        samples.append({"origin": c.origin, "scenario": c.scenario, "trace": c.trace[:4]})
-    events = sum(len(c.trace) for c in cases)
     evidence = {
         "property_id": prop, "tier": tier, "seed": seed, "level": "model_checking",
         "coverage": {
             "states": states, "transitions": transitions,
-            "traces_validated_against_impl": len(cases),
+            "traces_validated_against_impl": n_cases,
             "samples": samples,
-            "evaluations": len(cases), "distinct_nontrivial": len(nontrivial_keys),
+            "evaluations": n_cases, "distinct_nontrivial": len(nontrivial_keys),
             "rule": check.rule,
             "exhaustive": bool(check.exhaustive_claim and n_tlc > 0 and not limit),
-            "scenarios_from_tlc": n_tlc, "scenarios_random": len(cases) - n_tlc,
+            "scenarios_from_tlc": n_tlc, "scenarios_random": n_cases - n_tlc,
             "trace_events": events, "model_runs": mc_info,
             "rejected_known": known, "rejected_new": len(violations),
             "stage_wall_s": {"model_check": round(t_mc, 1), "replay": round(t_drive, 1), "trace_validation": round(t_val, 1)},
@@ -259,7 +273,7 @@ def _run(check: PropertyCheck, driver_module: str, tier: str, seed: int, t0: flo
     }
     (out_root / "evidence").mkdir(parents=True, exist_ok=True)
     (out_root / "evidence" / f"{prop}.json").write_text(json.dumps(evidence, indent=1))
-    print(f"{prop} {tier}: {states} spec states, {len(cases)} traces validated ({events} events), "
+    print(f"{prop} {tier}: {states} spec states, {n_cases} traces validated ({events} events), "
           f"{len(nontrivial_keys)} distinct non-trivial, {len(violations)} violations, "
           f"{sum(known.values())} known-finding rejections, {evidence['wall_s']} s "
           f"(mc {t_mc:.0f} / replay {t_drive:.0f} / validate {t_val:.0f})")
